@@ -69,6 +69,10 @@ theorem instructionSplit_tie (b : Bytes) :
         · apply List.take_of_length_le
           simp [Nat.add_comm 1 x.toNat]
 
+/-- the regenerated decoders on concrete bytes: `LOAD`'s opcode with a rest, an unknown opcode, a symbol argument, a length byte past the end -/
+example : GenFn.vm_opSplit [0, 3, 3, 0x66, 0x6f, 0x6f] = some (3, [3, 0x66, 0x6f, 0x6f], "") ∧ GenFn.vm_opSplit [0, 13] = some (0, [0, 13], "errorf") ∧
+    GenFn.vm_instructionSplit [3, 0x66, 0x6f, 0x6f, 9] = some ([0x66, 0x6f, 0x6f], [9], "") ∧ GenFn.vm_instructionSplit [3, 0x66, 0x6f] = some ([], [], "errorf") := by decide
+
 end Vise.Tie
 
 #print axioms Vise.Tie.opSplit_tie
